@@ -106,6 +106,23 @@ def shrink_candidates(case):
                 yield dict(case, env=dict(case['env'], **{key: 1.0}))
 
 
+def _match(a, b):
+    return a[0] == b[0] and (a[1] == b[1] or a[1] == 'ALL' or b[1] == 'ALL')
+
+
+def py_spec_fail(case, out):
+    """extra search oracle (never the only judge): direct O(n^2) scan of the reported listings, both clauses"""
+    for which in ('plain', 'unrolled'):
+        ops = (out.get(which) or {}).get('ops') or []
+        for i, a in enumerate(ops):
+            for b in ops[i + 1:]:
+                if a['s'] < b['e'] and b['s'] < a['e'] and any(_match(x, y) for x in a['ch'] for y in b['ch']):
+                    both_positive = a['s'] < a['e'] and b['s'] < b['e']
+                    if both_positive or 'Barrier' in (a['cls'], b['cls']):
+                        return True
+    return False
+
+
 def to_coq(c, o):
     return f"(KLib {libgen.c_lcase(c, o)})"
 
@@ -131,6 +148,23 @@ def sample(c, o):
             'listed_operations': len((o.get('plain') or {}).get('ops', [])), 'unrolled_operations': len((o.get('unrolled') or {}).get('ops', []))}
 
 
-LEVEL_TEXT = 'TODO'
-LEVEL_NOTE = 'TODO'
-TECHNIQUE = 'TODO'
+LEVEL_TEXT = ('Coq proof for the "all duration settings" half of the quantifier, per constructor input: a symbolic scheduler computes the listing of a relation graph once, '
+              'with starts and ends as max-plus forms over R, M, F, S and the decoupling wait W; it is proved equal to the model\'s scheduler (Core/Model.v times / ext_of / '
+              'listing_op, nested blocks and multi-links included) for every setting with non-negative globals and R - M even (C10_symbolic_listing_sound); a decidable order '
+              'on forms (uses only R, M, F, S, W >= 0 and 2W + M >= R) is proved sound (C10_mp_le_sound); hence one vm_compute evaluation of cert_no_overlap on a graph proves '
+              'that no channel-sharing pair overlaps and nothing - zero-length operations included - sits inside a barrier under EVERY such setting, as constructed '
+              '(C10_certified) and after unrolling (C10_certified_unrolled, using that unrolling is setting-independent). The certificate is evaluated on the relation graph '
+              'extracted from every generated library circuit and is part of the tie, so each passing case is a theorem instance over all settings '
+              '(C10_holds_all_settings_partial), and the tie implies the judge (C10_tie_implies_spec).')
+LEVEL_NOTE = ('Partial: the "all constructor inputs" half (chain descriptions, layouts, cycle counts, initial states, calibration type) is covered by generation, not by proof - '
+              'no closed-form schedule of the constructors is derived, the certificate is computed per extracted graph. The theorems are about Core/Model.v run on the '
+              'structure extracted from the real circuit (true insertion order recorded by the driver); model and implementation are tied by exact equality of the reported '
+              'listing (class, channels, start, end, length, tag) and duration under sampled settings (microwave > readout, all equal, 0.25, 2^15 included), plain and '
+              'unrolled, and the implementation\'s listing is judged by spec_ok without the model. Hypotheses on settings: non-negative (the text says positive) and '
+              '(R - M) mod 2 = 0 in 1/8 ticks, i.e. durations are multiples of 0.25; without parity the model\'s floor division makes 2W + M >= R false '
+              '(C10_wait_fact_without_parity_refuted) while the Python float wait stays exact, so this is a limit of the integer model, not of the code. Zero-length '
+              'operations (virtual phases, detectors, CoordinateShiftOperation = the barrier-like operation without length) are never "positive"; clause 2 is checked with '
+              'the open-interval test (barrier_clear), the certificate demands the same of every channel-sharing pair. Finding F18 (simplified constructor without '
+              'refocusing: closing barrier over the QEC cycle) was found by this check and is fixed (4104f91); its witness runs first on every check. No axioms.')
+TECHNIQUE = ('Coq proof of a symbolic (max-plus) scheduler against the executable model + reflective certificate (vm_compute) per extracted library circuit, with a sampled '
+             'model/implementation correspondence judged in Coq')
